@@ -23,6 +23,10 @@ struct W {
     target: Option<String>,
     /// names of the iterator (the parameter and locals bound to `<it>.into_iter()`)
     iters: Vec<String>,
+    /// other names of the target (`let interner: &Self = self;`)
+    target_alias: Vec<String>,
+    /// inside the loop: locals bound to `<item>.as_ref()`
+    item_refs: Vec<String>,
 }
 
 fn mentions(t: &str, name: &str) -> bool {
@@ -60,8 +64,15 @@ impl W {
         let e = e.strip_prefix("&mut").unwrap_or(e);
         self.iters.iter().any(|i| i == e)
     }
+    fn is_target(&self, e: &str) -> bool {
+        let e = e.strip_prefix("&mut").or_else(|| e.strip_prefix('&')).unwrap_or(e);
+        Some(e) == self.target.as_deref() || self.target_alias.iter().any(|a| a == e)
+    }
+    fn is_item_ref(&self, arg: &str, v: &str) -> bool {
+        arg == format!("{v}.as_ref()") || arg == format!("AsRef::<str>::as_ref(&{v})") || arg == format!("AsRef::as_ref(&{v})") || self.item_refs.iter().any(|r| r == arg)
+    }
     fn default_hasher(h: &str) -> bool {
-        matches!(h, "Default::default()" | "S::default()" | "<S>::default()" | "<SasDefault>::default()")
+        matches!(h, "Default::default()" | "S::default()" | "<S>::default()" | "<SasDefault>::default()" | "<SasDefault>::default()" | "<Sascore::default::Default>::default()")
     }
     fn build(&mut self, init: &str) -> Option<&'static str> {
         let call = init.strip_prefix("Self::").or_else(|| init.strip_prefix("Rodeo::")).or_else(|| init.strip_prefix("ThreadedRodeo::"))?;
@@ -104,6 +115,19 @@ impl W {
                 }
                 if let syn::Pat::Ident(pi) = pat {
                     let name = pi.ident.to_string();
+                    if let Some(v) = in_loop {
+                        // `let s: &str = item.as_ref();`
+                        if self.is_item_ref(&init, v) && !self.item_refs.contains(&init) {
+                            self.item_refs.push(name);
+                            self.out.push(".pure".into());
+                            return;
+                        }
+                    } else if self.target.is_some() && self.is_target(&init) {
+                        // `let interner: &Self = self;`
+                        self.target_alias.push(name);
+                        self.out.push(".pure".into());
+                        return;
+                    }
                     if let Some(b) = self.build(&init) {
                         if self.target.is_none() {
                             self.target = Some(name);
@@ -138,6 +162,7 @@ impl W {
     }
     fn body(&mut self, stmts: &[Stmt], var: &str) {
         self.out.push(".loopBegin".into());
+        self.item_refs.clear();
         for s in stmts {
             self.stmt(s, Some(var));
         }
@@ -212,9 +237,23 @@ impl W {
                 let recv = squash(&toks(&*m.receiver));
                 let arg = m.args.first().map(|a| squash(&toks(a))).unwrap_or_default();
                 let v = in_loop.unwrap();
-                let recv_ok = Some(recv.as_str()) == self.target.as_deref();
-                let arg_ok = arg == format!("{v}.as_ref()") || arg == format!("AsRef::<str>::as_ref(&{v})") || arg == format!("AsRef::as_ref(&{v})");
+                let recv_ok = self.is_target(&recv);
+                let arg_ok = self.is_item_ref(&arg, v);
                 if recv_ok && arg_ok && m.args.len() == 1 {
+                    self.out.push(".internItem".into());
+                } else {
+                    self.other(&t);
+                }
+            }
+            Expr::Call(c) if in_loop.is_some() && c.args.len() == 2 && {
+                let f = squash(&toks(&*c.func));
+                matches!(f.as_str(), "Self::get_or_intern" | "Rodeo::get_or_intern" | "ThreadedRodeo::get_or_intern" | "Rodeo::<K,S>::get_or_intern" | "ThreadedRodeo::<K,S>::get_or_intern")
+            } =>
+            {
+                let v = in_loop.unwrap();
+                let recv = squash(&toks(&c.args[0]));
+                let arg = squash(&toks(&c.args[1]));
+                if self.is_target(&recv) && self.is_item_ref(&arg, v) {
                     self.out.push(".internItem".into());
                 } else {
                     self.other(&t);
@@ -260,7 +299,7 @@ fn effects(file: &syn::File, owner: &str, trait_: &str, name: &str) -> Vec<Strin
             }
         }
     }
-    let mut w = W { out: Vec::new(), lets: HashMap::new(), target: if name == "extend" { Some("self".into()) } else { None }, iters };
+    let mut w = W { out: Vec::new(), lets: HashMap::new(), target: if name == "extend" { Some("self".into()) } else { None }, iters, target_alias: Vec::new(), item_refs: Vec::new() };
     let n = f.block.stmts.len();
     for (i, s) in f.block.stmts.iter().enumerate() {
         let _ = (i, n);
